@@ -218,7 +218,10 @@ const ENCODINGS: [&str; 16] = [
     "gzip;q=", "br;q=1.5", ";q=0", ",,,", "gzip;q=0.0000001, *;q=0", "identity;q=0", "*;q=0", "gzip;q=q=q=", "q=0.5", "br;;;q=0.1,",
     "gzip ; q = 0.5 , br", "zstd;q=1e400", "gzip;q=NaN", "gzip;q=-1", ", ,gzip", "identity;q=0, *;q=0",
 ];
-const DATES: [&str; 8] = ["", "x", "Sun, 06 Nov 1994 08:49:37 GMT", "Sun, 06 Nov 2094 08:49:37 GMT", "Sun, 99 Nov 1994 08:49:37 GMT", "0", "Sun, 06 Nov 1994 08:49:37", "Thu, 01 Jan 1970 00:00:00 GMT"];
+const DATES: [&str; 16] = ["", "x", "Sun, 06 Nov 1994 08:49:37 GMT", "Sun, 06 Nov 2094 08:49:37 GMT", "Sun, 99 Nov 1994 08:49:37 GMT", "0", "Sun, 06 Nov 1994 08:49:37", "Thu, 01 Jan 1970 00:00:00 GMT",
+    // the ends of what the date types can express
+    "Fri, 31 Dec 9999 23:59:59 GMT", "Fri, 31 Dec 9999 23:59:58 GMT", "Sat, 01 Jan 0000 00:00:00 GMT", "Mon, 01 Jan 0001 00:00:00 GMT", "Thu, 01 Jan 1970 00:00:01 GMT", "Wed, 31 Dec 1969 23:59:59 GMT",
+    "Sunday, 06-Nov-94 08:49:37 GMT", "Sun Nov  6 08:49:37 1994"];
 const ORIGINS: [&str; 8] = ["", "null", "http://", "http://localhost", "https://evil.test:99999", "://", "http://a b", "x"];
 const HOSTS: [&str; 12] = ["", ":", "a:b:c", "[::1", "[::1]", "localhost:99999", "other.test", "OTHER.TEST", "unknown.test", "localhost:", ".", "127.0.0.1:80"];
 const TARGETS: [&str; 26] = [
@@ -228,7 +231,7 @@ const TARGETS: [&str; 26] = [
 
 fn gen_input(rng: &mut Rng) -> Vec<u8> {
     let ext_target;
-    let target: &str = if rng.chance(1, 4) { ext_target = format!("/ext{}.html", rng.below(16)); &ext_target } else { *rng.pick(&TARGETS) };
+    let target: &str = if rng.chance(1, 3) { *rng.pick(&["/index.html", "/dyn", "/sub/a.txt", "/"]) } else if rng.chance(1, 4) { ext_target = format!("/ext{}.html", rng.below(16)); &ext_target } else { *rng.pick(&TARGETS) };
     let method = *rng.pick(&["GET", "GET", "GET", "HEAD", "POST", "OPTIONS", "PUT", "DELETE", "TRACE", "CONNECT", "PATCH"]);
     let version = *rng.pick(&["HTTP/1.1", "HTTP/1.1", "HTTP/1.0"]);
     let mut s = format!("{method} {target} {version}\r\n").into_bytes();
@@ -320,7 +323,9 @@ impl Group for Stack {
         v.push(format!("c02.stack {}", list([
             &b"GET /big.bin HTTP/1.1\r\nhost: localhost\r\nrange: bytes=0-18446744073709551615\r\n\r\n"[..],
             b"GET / HTTP/1.1\r\nA: \n\r\n", b"GET / HTTP/1.1\r\nhost: localhost\r\nA:\n\n", b"GET /ext0.html HTTP/1.1\r\nhost: localhost\r\n\r\n",
-            b"GET /index.html HTTP/1.1\r\nhost: [::1\r\n\r\n", b"\r\n\r\n", b"GET", b"GET / HTTP/1.1\r\nhost: localhost\r\naccept-encoding: gzip;q=\r\n\r\n",
+            b"GET /index.html HTTP/1.1\r\nhost: [::1\r\n\r\n", b"\r\n\r\n", b"GET",
+            b"GET /dyn HTTP/1.1\r\nhost: localhost\r\n\r\n", b"GET /dyn HTTP/1.1\r\nhost: localhost\r\nif-modified-since: Fri, 31 Dec 9999 23:59:59 GMT\r\n\r\n",
+            b"GET /dyn HTTP/1.1\r\nhost: localhost\r\nif-modified-since: Sat, 01 Jan 0000 00:00:00 GMT\r\n\r\n", b"GET / HTTP/1.1\r\nhost: localhost\r\naccept-encoding: gzip;q=\r\n\r\n",
         ].iter().map(|b| hex(b)))));
         for _ in 0..batches {
             v.push(format!("c02.stack {}", list((0..per).map(|_| hex(&gen_input(rng))))));
